@@ -7,6 +7,7 @@ CONSTANTS
   MinPre = 0
   MinTotal = 0
   Leaky = FALSE
+  ForkBug = "none"
   Alphabet <- CoreCmds
   PreAlphabet <- CorePreCmds
   Kinds <- WideKinds
@@ -15,5 +16,5 @@ CONSTANTS
   Ctxs <- MainCtx
 INIT Init
 NEXT Next
-INVARIANTS NoForeignTrapAction EntryIsForkImage TrapRule SharedDescriptions Final Emit
+INVARIANTS NoForeignTrapAction EntryIsForkImage PendingCleared ParentTrapOnce ContextDuplicated TrapRule SharedDescriptions Final Emit
 PROPERTIES Isolation CopyNotReference
